@@ -98,7 +98,7 @@ def gen_cfg(rng, real_frac=0.06, allow_long=True, engines=None):
         "xyz": rng.choice([0, 1, 1, 2, 3]),
         "h5": h5,
     }
-    cfg["reuse_P"] = True if eng not in ("basic", "langevin", "exc_basic") else rng.random() < 0.8
+    cfg["reuse_P"] = True if eng not in ("basic", "langevin", "exc_basic") else rng.random() < 0.65
     diatomic = any(len(mdsim.POOL[m][0]) <= 2 or m == "hcn" for m in cfg["batch"])
     u = rng.random()
     if u < 0.6 or eng in ("sh", "sh_model"):
